@@ -50,6 +50,10 @@ def vol_event(alg, N, nsamples, seed, via_fullgrid=False):
                 g = fg.b_rotations
             else:
                 g = create(alg, N)
+                if N >= 4 and N % 3 == 1 and DIM[alg] == 4:
+                    # a caller looks at the plain (vertex-only) hulls of the diagram first - the documented flag of the getter
+                    sv = g.get_spherical_voronoi()
+                    getattr(sv, "full_voronoi", sv).get_convex_hulls(including_additional=False)
             vol = np.asarray(g.get_spherical_voronoi().get_voronoi_volumes(), dtype=float)
             G = np.asarray(g.get_grid_as_array(only_upper=True) if DIM[alg] == 4 else g.get_grid_as_array(), dtype=float)
             if DIM[alg] == 4 and N >= 4:
